@@ -153,7 +153,8 @@ def calls(pid):
     D30, D85 = datetime.date(2030, 1, 1), datetime.date(1985, 7, 1)
     hp, dms, gon, ddm = ga.HPAngle, ga.DMSAngle, ga.GONAngle, ga.DDMAngle
     T = gc.Transformation
-    geo = [
+    def _geo():
+      return [
         ('utm default', 'geo2grid', gv.geo2grid, [-33.5, 151.2, 0, gc.grs80, gc.utm]),
         ('isg', 'geo2grid', gv.geo2grid, [-33.5, 151.2, 0, gc.ans, gc.isg]),
         ('isg, grs80', 'geo2grid', gv.geo2grid, [-33.5, 151.2, 0, gc.grs80, gc.isg]),
@@ -162,7 +163,8 @@ def calls(pid):
         ('DMS objects, ans', 'geo2grid', gv.geo2grid, [dms(-23, 40, 12.5), dms(133, 52, 48.0), 53, gc.ans, gc.utm]),
         ('GON objects', 'geo2grid', gv.geo2grid, [gon(-26.3), gon(148.75)]),
     ]
-    grid = [
+    def _grid():
+      return [
         ('utm default', 'grid2geo', gv.grid2geo, [53, 386352.3979, 7381850.7689, 'south', gc.grs80, gc.utm]),
         ('isg, ans', 'grid2geo', gv.grid2geo, [561, 318743.2, 1291327.7, 'south', gc.ans, gc.isg]),
         ('isg, grs80', 'grid2geo', gv.grid2geo, [561, 318743.2, 1291327.7, 'south', gc.grs80, gc.isg]),
@@ -170,9 +172,9 @@ def calls(pid):
         ('required only', 'grid2geo', gv.grid2geo, [55, 300000.0, 6200000.0]),
     ]
     table = {
-        'C01': geo,
-        'C02': grid + geo[:3],
-        'C03': [
+        'C01': lambda: _geo(),
+        'C02': lambda: _grid() + _geo()[:3],
+        'C03': lambda: [
             ('llh default', 'llh2xyz', gv.llh2xyz, [-37.8, 144.97, 0, gc.grs80]),
             ('llh ans', 'llh2xyz', gv.llh2xyz, [-37.8, 144.97, 39.65, gc.ans]),
             ('llh HP objects', 'llh2xyz', gv.llh2xyz, [hp(-23.4012), hp(133.5248), 603.2, gc.intl24]),
@@ -181,7 +183,7 @@ def calls(pid):
             ('xyz ans west', 'xyz2llh', gv.xyz2llh, [2765120.7, -4449250.0, 3626405.6, gc.ans]),
             ('xyz intl', 'xyz2llh', gv.xyz2llh, [1.0e7, -2.0e7, 3.0e7, gc.intl24]),
         ],
-        'C04': [
+        'C04': lambda: [
             ('grs80', 'vincdir', gg.vincdir, [-37.95103342, 144.42486789, 306.86815920, 54972.271, gc.grs80]),
             ('intl', 'vincdir', gg.vincdir, [10.0, -20.0, 45.0, 1.5e7, gc.intl24]),
             ('HP objects', 'vincdir', gg.vincdir, [hp(-37.57037203), hp(144.25295244), hp(306.520537), 54972.271, gc.grs80]),
@@ -189,20 +191,20 @@ def calls(pid):
             ('GON objects', 'vincdir', gg.vincdir, [gon(50.0), gon(-100.0), gon(350.0), 2.0e5]),
             ('DDM objects', 'vincdir', gg.vincdir, [ddm(-12, 30.5), ddm(130, 59.9), ddm(0, 0.0), 10.0]),
         ],
-        'C05': [
+        'C05': lambda: [
             ('grs80', 'vincinv', gg.vincinv, [-37.95103342, 144.42486789, -37.65282114, 143.92649553, gc.grs80]),
             ('ans', 'vincinv', gg.vincinv, [10.0, 179.5, -12.0, -179.5, gc.ans]),
             ('HP objects', 'vincinv', gg.vincinv, [hp(-37.57037203), hp(144.25295244), hp(-37.39101561), hp(143.55353839), gc.grs80]),
             ('DMS objects', 'vincinv', gg.vincinv, [dms(-0, 30, 0), dms(100, 0, 0), dms(0, 30, 0), dms(101, 0, 0), gc.intl24]),
             ('GON objects', 'vincinv', gg.vincinv, [gon(50.0), gon(-100.0), gon(40.0), gon(-90.0)]),
         ],
-        'C06': [
+        'C06': lambda: [
             ('no vcv', 'conform7', gt.conform7, [X, Y, Z, gc.gda94_to_gda2020, None]),
             ('vcv', 'conform7', gt.conform7, [X, Y, Z, gc.gda2020_to_gda94, V]),
             ('user set', 'Transformation', T, ['A', 'B', 0, 1.0, -2.0, 3.0, 0.5, 0.1, -0.2, 0.3, 0.0, 0.0, 0.0, 0.0, 0.0, 0.0, 0.0, None]),
             ('user set with rates', 'Transformation', T, ['A', 'B', datetime.date(2010, 1, 1), 1.0, -2.0, 3.0, 0.5, 0.1, -0.2, 0.3, 0.01, 0.02, -0.03, 0.001, 0.002, 0.003, -0.004]),
         ],
-        'C07': [
+        'C07': lambda: [
             ('no vcv', 'conform14', gt.conform14, [X, Y, Z, D30, gc.itrf2014_to_gda2020, None]),
             ('vcv', 'conform14', gt.conform14, [X, Y, Z, D85, gc.itrf2008_to_gda94, V]),
             ('wrapper fwd', 'atrf2014_to_gda2020', gt.transform_atrf2014_to_gda2020, [X, Y, Z, D30, None]),
@@ -210,28 +212,28 @@ def calls(pid):
             ('wrapper rev', 'gda2020_to_atrf2014', gt.transform_gda2020_to_atrf2014, [X, Y, Z, D30, None]),
             ('wrapper rev vcv', 'gda2020_to_atrf2014', gt.transform_gda2020_to_atrf2014, [X, Y, Z, D85, V]),
         ],
-        'C08': [
+        'C08': lambda: [
             ('DMS numbers', 'DMSAngle', ga.DMSAngle, [-12, 34, 56.789, None]),
             ('DMS degrees only', 'DMSAngle', ga.DMSAngle, [123, 0, 0.0, None]),
             ('DMS negative zero', 'DMSAngle', ga.DMSAngle, [0, 30, 15.5, False]),
             ('DDM numbers', 'DDMAngle', ga.DDMAngle, [-12, 34.5678, None]),
             ('DDM degrees only', 'DDMAngle', ga.DDMAngle, [90, 0.0, None]),
         ],
-        'C10': geo[:4] + grid[:4],
-        'C11': [
+        'C10': lambda: _geo()[:4] + _grid()[:4],
+        'C11': lambda: [
             ('iers', 'iers2trans', gc.iers2trans, ['ITRF2020', 'ITRF2008', datetime.date(2015, 1, 1), 0.2, 1.0, 3.3, -0.29, 0.01, -0.02, 0.03, 0.0, -0.1,
                                                  0.1, 0.03, 0.001, 0.002, -0.003]),
             ('set', 'Transformation', T, ['ITRF2014', 'GDA2020', datetime.date(2020, 1, 1), 0.0, 0.0, 0.0, 0.0, 0.0, 0.0, 0.0, 0.0, 0.0, 0.0, 0.0,
                                           0.00150379, 0.00118346, 0.00120716, None]),
         ],
-        'C13': [
+        'C13': lambda: [
             ('fwd no height', 'mga94_to_mga2020', gt.transform_mga94_to_mga2020, [53, 386352.3979, 7381850.7689, False, None]),
             ('fwd height vcv', 'mga94_to_mga2020', gt.transform_mga94_to_mga2020, [53, 386352.3979, 7381850.7689, 603.3466, V]),
             ('back no height', 'mga2020_to_mga94', gt.transform_mga2020_to_mga94, [55, 300000.0, 6200000.0, False, None]),
             ('back height vcv', 'mga2020_to_mga94', gt.transform_mga2020_to_mga94, [55, 300000.0, 6200000.0, 10.0, V]),
             ('back height 0', 'mga2020_to_mga94', gt.transform_mga2020_to_mga94, [50, 9e5, 9.4e6, 0.0, None]),
         ],
-        'C14': [
+        'C14': lambda: [
             ('inverse default', 'vincinv_utm', gg.vincinv_utm, [55, 273741.2966, 5796489.7769, 54, 758173.7973, 5828674.3402, 'south', gc.grs80]),
             ('inverse north intl', 'vincinv_utm', gg.vincinv_utm, [31, 500000.0, 5000000.0, 31, 560000.0, 5060000.0, 'north', gc.intl24]),
             ('direct default', 'vincdir_utm', gg.vincdir_utm, [55, 273741.2966, 5796489.7769, 305.17017, 54992.279, 'south', gc.grs80]),
@@ -239,7 +241,7 @@ def calls(pid):
             ('line_sf default', 'line_sf', gg.line_sf, [55, 273741.2966, 5796489.7769, 54, 758173.7973, 5828674.3402, 'south', gc.grs80, gc.utm]),
             ('line_sf intl', 'line_sf', gg.line_sf, [31, 500000.0, 5000000.0, 32, 200000.0, 5060000.0, 'north', gc.intl24, gc.utm]),
         ],
-        'C15': [
+        'C15': lambda: [
             ('CoordGeo', 'CoordGeo', gco.CoordGeo, [-33.5, 151.2, None, None]),
             ('CoordGeo heights', 'CoordGeo', gco.CoordGeo, [dms(-23, 40, 12.5), dms(133, 52, 48.0), 603.2, 588.1]),
             ('CoordCart', 'CoordCart', gco.CoordCart, [X, Y, Z, None]),
@@ -259,7 +261,7 @@ def calls(pid):
             ('tm.cart', 'CoordTM.cart', gco.CoordTM(55, 300000.0, 6200000.0, 0.0, None).cart, [gc.grs80]),
             ('tm.cart isg', 'CoordTM.cart', gco.CoordTM(561, 318743.2, 1291327.7, 10.0, 2.0, False, gc.isg).cart, [gc.grs80]),
         ],
-        'C16': [
+        'C16': lambda: [
             ('rotation', 'rotation_matrix', gs.rotation_matrix, [-23.67, 133.88]),
             ('enu2xyz', 'enu2xyz', gg.enu2xyz, [-35.0, 149.0, 1.0, -2.0, 3.0]),
             ('enu2xyz HP', 'enu2xyz', gg.enu2xyz, [hp(-35.3), hp(149.0730), 1.0, -2.0, 3.0]),
@@ -272,7 +274,7 @@ def calls(pid):
             ('local2cart', 'vcv_local2cart', gs.vcv_local2cart, [V, 45.5, -73.6]),
             ('relative_error', 'relative_error', gs.relative_error, [-23.67, 133.88, V, V * 2.0, V * 0.3]),
         ],
-        'C19': [
+        'C19': lambda: [
             ('params', 'first_vel_params', sv.first_vel_params, [0.850, 14985259, None, 10.0]),
             ('params ref', 'first_vel_params', sv.first_vel_params, [0.850, None, 1.0002818, None]),
             ('closed form', 'first_vel_corrn', sv.first_vel_corrn, [1117.8517, (281.781, 79.393), 6.8, 938.5, 58.0, None, None, None]),
@@ -292,15 +294,30 @@ def calls(pid):
             ('inst_ht', 'precise_inst_ht', sv.precise_inst_ht, [[89.0, 92.0, 90.0, 91.0], 0.5, 0.1]),
         ],
     }
-    return table.get(pid, [])
+    f = table.get(pid)
+    return f() if f else []
 
 
 def make(pid, site):
     def gen(tier, seed):
-        for i, (label, key, fn, args) in enumerate(calls(pid)):
+        try:
+            cs = calls(pid)
+        except Exception as e:
+            # a valid argument object could not even be constructed on this tree: that is the finding
+            yield {'call': -1, 'label': 'construction', 'key': '-', 'error': '%s: %s' % (type(e).__name__, e)}
+            return
+        for i, (label, key, fn, args) in enumerate(cs):
             yield {'call': i, 'label': label, 'key': key}
 
     def ev(case, rec):
+        if case['call'] < 0:
+            rec.nontriv((pid, 'construction'))
+            try:
+                calls(pid)
+            except Exception as e:
+                rec.fail('a valid argument of the representative calls could not be constructed: %s: %s' % (type(e).__name__, str(e)[:160]),
+                         site=site + ':construct', observed=e, case=case)
+            return
         label, key, fn, args = calls(pid)[case['call']]
         rec.nontriv((pid, label))
         ok = agree(rec, fn, key, list(args), site + ':' + key, case, {'label': label, 'key': key}, key,
